@@ -41,6 +41,12 @@ def l1_monitor(rec):
 def chain_monitor(info, xs, execs, wfe, obs):
     out = []
     m = len(execs)
+    if info.get("stop_tree") is not None and m < RC.NEXC:
+        # the number of executions the nested stop condition documents: the first failure count at which it holds
+        want = next((k for k in range(1, RC.NEXC + 1) if RC.stop_oracle(info["stop_tree"], k)), None)
+        if want is not None and m != want and (wfe or m < want):
+            out.append("the step ran %d times under the stop condition %s, which holds first after %d failures"
+                       % (m, info["stop_tree"], want))
     if [r["retry"] for r in execs] != list(range(m)):
         out.append("retry_info().retry_number sequence %s is not 0,1,2,..." % [r["retry"] for r in execs])
     for k, r in enumerate(execs):
@@ -125,7 +131,7 @@ def run(ctx):
         ctx.violation("model/implementation disagreement in suite retrychain (no property-level failing input found)",
                       dict(suite="retrychain", theorem="C05_stop_after_attempt_exact / C05_report_is_real (Model/RetryChain.v no "
                            "longer matches the engine's retry loop)", coq_cases=[exprs[i] for i in bad[:3]]), found_input=False)
-    for k in ("attempt", "delay", "never", "composed"):
+    for k in ("attempt", "delay", "never", "composed", "nested"):
         ctx.require_coverage("retrychain", k, shapes.get(k, 0), 10)
     ctx.require_coverage("retrychain", "chains_with_3_or_more_executions", multi, 30)
     run_l1(ctx, ctx.n(100, 4000), l1_monitor, THEOREMS, need=("retry_queued", "fail_workflow"))
